@@ -190,6 +190,15 @@ def run(ctx: Ctx):
             items = [codes[:30], codes[30:]]
             ok, out, wire = rc.cat_property([S(x) for x in items])
             push({"k": "cat", "items": items, "ok": ok, "out": [L(x) for x in out] if ok else []}, {"items": items, "path": "cat-align"})
+    # every property that holds TEXT (by the RFCs, or because the name is unknown) goes through the same codec: the NAME of
+    # the property does not change how commas, semicolons, backslashes and line breaks in the value are treated
+    text_names = ["description", "comment", "location", "contact", "resources", "x-foo", "styled-description", "structured-data", "name", "color",
+                  "tzname", "related-to", "uid", "x-wr-calname", "conference-x", "busy", "e"]
+    for s_ in ("Easel, large; flip-chart", "a\nb", "back\\slash", "plain", "x:y", "\u00e9\u4e2d, \U0001F600"):
+        for nm in text_names:
+            ctx.case(("text-name", nm, s_), True)
+            ok, out, wire = rc.text_property(s_, nm)
+            push({"k": "prop", "s": L(s_), "ok": ok, "out": L(out) if ok else []}, {"s": L(s_), "path": f"prop {nm.upper()}"})
     # category items handed over as a tuple or as a one-shot iterator are the same items
     for items in ([L("a"), L("b,c"), L("d e")], [L("only")], [L("x"), L(""), L("z")]):
         for form in (tuple, "gen", "map", "iter"):
